@@ -66,6 +66,8 @@ fn main() {
         ("c11", "run") => c11::run(),
         ("c13", "gen") => c13::gen(seed, thorough),
         ("c13", "run") => c13::run(),
+        ("c13lf", "gen") => c13::gen_lf(seed, thorough),
+        ("c13lf", "run") => c13::run_lf(),
         ("c15", "gen") => c15::gen(seed, thorough),
         ("c15", "run") => c15::run(),
         ("c15q", "gen") => c15::gen_q(seed, thorough),
